@@ -30,6 +30,8 @@ FILES1 = {
     # below the first component a name may begin with two dots: an ordinary file / directory name there
     # names that change under Unicode normalisation (decomposed accents, compatibility characters): served under the name they have
     'de\u0301compose\u0301.txt': b'decomposed accents', 'sub/\u212bngstrom-\u2126.txt': b'compatibility characters', '\ufb01le.txt': b'ligature',
+    # empty files: with a name whose type can be guessed, and with names where the (absent) first bytes would decide (round 14)
+    'empty.txt': b'', 'EMPTY': b'', 'sub/.keep': b'', 'sub/empty.zz9': b'',
     'sub/..x': b'dotdot-ish name one level down', 'sub/..d/f.txt': b'inside a dotdot-ish directory one level down', 'sub/deep/..x': b'two levels down',
 }
 FILES2 = {'shadow': b'root2 shadow is a file', 'dup.txt': b'from root2', 'only2.txt': b'only in second', 'sub/b2.txt': b'b2',
